@@ -275,6 +275,19 @@ def guard_cases() -> dict:
                            program={"scripts": {"plan.py": wplan, "w.py": w(am0)}, "commands": {}})
             out[f"amended-env-{name}{tail_name}"] = co.case_json(
                 p, [{"edits": [{"op": "script", "path": "w.py", "actions": w(am1)}]}, *tail])
+    # D9, second symptom: the step is re-defined with one declared variable less while its edited
+    # script now AMENDS that variable; the stale row (dynamic = 0) of the partial recycle shadows
+    # the amended one (INSERT OR IGNORE).  Differences appear under D9's signature only.
+    def wd(am):
+        return ([{"op": "amend", "env": am}] if am else []) + \
+               [{"op": "getenv", "name": "VA"}, {"op": "getenv", "name": "VD"}, {"op": "auto"}]
+
+    def pd(env):
+        return [{"op": "static", "paths": ["w.py"]}, {"op": "run", "label": "./w.py", "env": env, "out": ["s.txt"]}]
+    p = e3.Project(sources={}, env={"VA": "a", "VD": "d"},
+                   program={"scripts": {"plan.py": pd(["VA", "VD"]), "w.py": wd([])}, "commands": {}})
+    out["d9-stale-row-shadows-amended-variable"] = co.case_json(
+        p, [{"edits": [prog({"plan.py": pd(["VA"]), "w.py": wd(["VD"])})]}])
     # the user touches PRODUCTS between two builds: an intermediate / final output is modified,
     # deleted, written again with the same bytes, or merely touched (restart and watch flavour);
     # a build from scratch does not care what the output looked like before
